@@ -23,7 +23,7 @@ pub fn c11_def() -> PropDef {
     PropDef {
         id: "C11",
         level: "exploration",
-        rule: "proptest cfg (committee 4..6, batch_size 1..4000 with small values emphasised, max_batch_delay 1..200 ms, scheduler seed) + tape -> the real Mempool::spawn on the in-memory transport with peers that acknowledge at once; 1..3 client connections submit 1..40 transactions with sizes from {0,1,3,8,9,B-1,B,B+1,2B,5B,random}, first byte 0 or not, inter-arrival gaps around the seal timer (0, <delay, =delay, >delay, and arrival exactly in the instant the timer expires next); peers' batches (also with trailing bytes after a valid encoding) are sent to its mempool port; run in the default build and in the build with the benchmark feature. Oracle: every peer receives the same sequence of batch frames; the multiset of transactions in all batches equals the multiset submitted and each client's identifiable transactions keep their order; size rule (the batch without its last transaction is below batch_size; a batch reaching batch_size is emitted in the instant its last transaction was delivered); timer rule (no transaction waits longer than max_batch_delay); every own and received batch is stored under, and announced to consensus as, SHA-512/256 of its exact frame bytes. (realtime-burst) the same component on the real clock: 8..32 client connections flood tiny transactions while a 1..3 ms seal timer keeps expiring, so that transactions are taken from the channel in the very poll in which the timer fires (virtual time cannot produce this: its clock only advances when every task is idle); oracle: nothing lost, duplicated or reordered per client. Non-trivial: >= 2 batches with both seal triggers, or an empty transaction, or a transaction >= batch_size; distinct by (parameters, size/gap sequence) hash.",
+        rule: "proptest cfg (committee 4..6, batch_size 1..4000 with small values emphasised, max_batch_delay 1..200 ms, scheduler seed) + tape -> the real Mempool::spawn on the in-memory transport with peers that acknowledge at once; 1..3 client connections submit 1..40 transactions with sizes from {0,1,3,8,9,B-1,B,B+1,2B,5B,random}, first byte 0 or not, in one case of five all with identical bytes (so that batches sealed by size are byte-identical), inter-arrival gaps around the seal timer (0, <delay, =delay, >delay, and arrival exactly in the instant the timer expires next); peers' batches (also with trailing bytes after a valid encoding) are sent to its mempool port; run in the default build and in the build with the benchmark feature. Oracle: every peer receives the same sequence of batch frames; the multiset of transactions in all batches equals the multiset submitted and each client's identifiable transactions keep their order; size rule (the batch without its last transaction is below batch_size; a batch reaching batch_size is emitted in the instant its last transaction was delivered); timer rule (no transaction waits longer than max_batch_delay); every own and received batch is stored under, and announced to consensus as, SHA-512/256 of its exact frame bytes. (realtime-burst) the same component on the real clock: 8..32 client connections flood tiny transactions while a 1..3 ms seal timer keeps expiring, so that transactions are taken from the channel in the very poll in which the timer fires (virtual time cannot produce this: its clock only advances when every task is idle); oracle: nothing lost, duplicated or reordered per client. Non-trivial: >= 2 batches with both seal triggers, or an empty transaction, or a transaction >= batch_size; distinct by (parameters, size/gap sequence) hash.",
         assumptions: &[
             "a transaction delivered exactly on a timer tick may go into either batch (both accepted)",
             "peers acknowledge immediately (acknowledgement patterns are C12's domain)",
@@ -293,6 +293,11 @@ fn c11_run(case: &Case, _ctx: &Ctx) -> Outcome {
     let nclients = 1 + t.weighted(&[3, 1, 1]);
     let ntx = t.range(1, 40) as usize;
     let b = batch_size;
+    // repeated contents (one case in five): every transaction has the same bytes, so that batches
+    // sealed by size are byte-identical (same digest); each of them is still a batch of its own
+    let repeat = t.chance(1, 5);
+    let repeat_len = *t.pick(&[(b / 2).max(1), b, b / 3 + 1, 8, 1, 0]);
+    let repeat_fill = if t.chance(1, 2) { 0u8 } else { 7 };
     let mut txs = Vec::new();
     let mut seqs = vec![0u16; nclients];
     let mut script = Vec::new();
@@ -313,12 +318,13 @@ fn c11_run(case: &Case, _ctx: &Ctx) -> Outcome {
             _ => t.range(0, (b / 2).max(1) as u64) as usize,
         };
         let first = if t.chance(1, 2) { 0u8 } else { 1 + t.below(255) as u8 };
-        let mut tx = vec![0u8; len];
+        let (len, first) = if repeat { (repeat_len, repeat_fill) } else { (len, first) };
+        let mut tx = vec![if repeat { repeat_fill } else { 0u8 }; len];
         if len > 0 {
             tx[0] = first;
         }
         // identifiable transactions: [first][0xC1][client][seq hi][seq lo]...
-        if len >= 5 {
+        if len >= 5 && !repeat {
             tx[1] = 0xC1;
             tx[2] = client as u8;
             tx[3..5].copy_from_slice(&seqs[client].to_be_bytes());
@@ -511,6 +517,26 @@ fn c11_run(case: &Case, _ctx: &Ctx) -> Outcome {
         }
         if !announced.contains(d) {
             out.violate("batch-digest-not-announced", format!("{} batch: SHA-512/256 of its frame bytes was not handed to consensus", kind), hist(json!(null)));
+        }
+    }
+    // byte-identical own batches are separate batches: each sealing is announced
+    {
+        let mut sealed: HashMap<Vec<u8>, usize> = HashMap::new();
+        for (b, _) in &sent_batches {
+            *sealed.entry(sha512_32(b).to_vec()).or_insert(0) += 1;
+        }
+        let mut identical = false;
+        for (d, k) in &sealed {
+            let a = announced.iter().filter(|x| *x == d).count();
+            if *k > 1 {
+                identical = true;
+            }
+            if a < *k && a > 0 {
+                out.violate("identical-batch-not-announced-again", format!("{} byte-identical own batches were sealed and broadcast but their digest was handed to consensus {} time(s)", k, a), hist(json!(null)));
+            }
+        }
+        if identical {
+            out.class("byte-identical-own-batches");
         }
     }
     for a in &announced {
